@@ -130,13 +130,13 @@ pub fn check(s: &str) -> Result<&'static str, (String, String)> {
         }
         (Expect::Style(w), Err(e)) => Err(("c11:rejects-valid".into(), format!("parse({:?}) failed with {e:?}, but it is valid and denotes [{}]", s, w.describe()))),
         (Expect::Extra(word), Err(anstyle_git::Error::ExtraColor { style, word: w2 })) | (Expect::Unknown(word), Err(anstyle_git::Error::UnknownWord { style, word: w2 })) => {
-            if w2 != word || style != s {
-                return Err(("c11:error-payload".into(), format!("parse({:?}) names word {:?} / style {:?}, expected word {:?} and the whole input", s, w2, style, word)));
+            // the statement asks for "the error that names that word": the `word` payload, as the caller wrote it.  The
+            // `style` payload and the wording of the message are not constrained (the message is only rendered, so that
+            // a panic in it would show)
+            if w2 != word {
+                return Err(("c11:error-payload".into(), format!("parse({:?}) names word {:?} (style payload {:?}), expected word {:?}", s, w2, style, word)));
             }
-            let shown = format!("{}", got.as_ref().unwrap_err());
-            if !shown.contains(word.as_str()) {
-                return Err(("c11:error-display".into(), format!("error message {:?} does not name the word {:?}", shown, word)));
-            }
+            let _ = format!("{} {:?}", got.as_ref().unwrap_err(), got.as_ref().unwrap_err());
             Ok("rejected")
         }
         (Expect::Extra(word), Err(e)) => Err(("c11:error-variant".into(), format!("parse({:?}) = {e:?}, expected ExtraColor naming {:?}", s, word))),
